@@ -126,7 +126,11 @@ def _adjoint_system(model: Model, fc, H: RuleResult):
         return e
 
     def strip_ifexp(e):
-        return e.body if isinstance(e, ast.IfExp) else e
+        # `X.H if X is not None else None` in either polarity: the arm that is not the literal None
+        if isinstance(e, ast.IfExp):
+            arms = [a for a in (e.body, e.orelse) if not (isinstance(a, ast.Constant) and a.value is None)]
+            return arms[0] if len(arms) == 1 else e
+        return e
 
     a = resolve(call.args[0])
     what = "adjoint solve operator = %s" % ast.unparse(a)
